@@ -594,6 +594,12 @@ def _check_reason(f, sid, s, d, causes):
     allowed = set()
     for c in occurred:
         allowed |= c['reasons']
+    if not occurred and f.has_sleep and reason == 'transport close' and \
+            _writer_idle_timeout(f, sid, d):
+        # a synchronous handler that sleeps keeps the WebSocket reader from
+        # processing the PONG behind it; the heartbeat stops and the writer
+        # gives up after I + T without a packet: the application's doing
+        return out
     if not occurred:
         sig = '%s|disconnect-without-cause|%s' % (impl, reason)
         if reason == 'transport close' and _writer_timeout_tie(f, sid, d):
@@ -677,6 +683,18 @@ def _reader_armed_at_upgrade(f, sid, d):
         return False
     later = [t for (_s, t, dd) in conn.recv_s if t > t5 + EPS]
     return not later and abs(d['t'] - (t5 + f.I + f.T)) <= EPS
+
+
+def _writer_idle_timeout(f, sid, d):
+    """The session's WebSocket was closed by the server exactly I + T after
+    the last packet it wrote on it."""
+    for conn in (f.main_ws(sid), f.server_upgraded_conn(sid)):
+        if conn is None or not conn.sent_s:
+            continue
+        last = max(t for (_s, t, _d) in conn.sent_s if t <= d['t'] + EPS)
+        if abs((d['t'] - last) - (f.I + f.T)) <= EPS + f.handler_sleep:
+            return True
+    return False
 
 
 def _writer_starved_after_upgrade(f, sid, d):
@@ -1338,6 +1356,25 @@ def check_upgrade(h, f=None):
         if c is None or not s['accepted']:
             continue
         direct = c.open_ws is not None
+        rivals = [r.ws for r in c.raws
+                  if r.kind == 'ws' and getattr(r, 'raw_spec', None) and
+                  r.raw_spec.get('script') and ('sid=' + sid) in r.query]
+        if rivals:
+            # a second socket runs the handshake at the same time as the
+            # client's own: whichever finishes first wins, the other must
+            # not carry the session as well (nothing else is judged here:
+            # the client did not ask for what the rival did)
+            carriers = [conn for conn in
+                        [u['conn'] for u in c.upgrades] + rivals
+                        if any(d != '3probe' for _, _, d in conn.sent_s)]
+            if len(carriers) > 1:
+                out.append(V('second-upgrade-refused',
+                             '%s|two-upgrade-sockets-carry-session' % impl,
+                             'session %s: overlapping handshakes on two '
+                             'sockets both succeeded: %r' % (
+                                 sid, [[d for _, _, d in conn.sent_s][:4]
+                                       for conn in carriers])))
+            continue
         # observations of the session's transport
         obs = []
         for u in c.upgrades:
